@@ -21,8 +21,11 @@ type Violation struct {
 	Detail      string         `json:"detail"`
 	Choices     []int          `json:"choices"`
 	Preemptions int            `json:"preemptions"`
-	Trace       []string       `json:"trace,omitempty"`
-	Log         []Obs          `json:"log,omitempty"`
+	// Fresh: the violation did not reproduce inside the worker process that found it (the code under test
+	// may keep package-level state across executions); the coordinator re-runs it from fresh processes
+	Fresh bool     `json:"fresh,omitempty"`
+	Trace []string `json:"trace,omitempty"`
+	Log   []Obs    `json:"log,omitempty"`
 }
 
 // End is the end state of one execution.
